@@ -40,6 +40,7 @@ def handlers : List (String × (Case → String)) := [
   ("subjoverlap", Drivers.Overlap.runSubj),
   ("leak", Drivers.Cancel.runLeak),
   ("nextret", Drivers.Cancel.runNextRet),
+  ("ctxpair", Drivers.Cancel.runCtxPair),
   ("timed", Drivers.Timed.run),
   ("plugin", Drivers.Plugin.run),
   ("resub", Drivers.Resub.run),
